@@ -69,12 +69,16 @@ def cpython_rejects(text, mode, rule=None):
     except (SyntaxError, ValueError):
         return True
     if rule in COMPILE_TIME:
+        # the compiler stops at its first complaint: make return / break / continue / await legal around the program
+        wrapped = text if m == "eval" else "async def __w():\n  while 1:\n" + "".join("    " + ln + "\n" for ln in text.split("\n") if ln != "")
         try:
             with warnings.catch_warnings():
                 warnings.simplefilter("ignore")
-                compile(text, "<c04>", m)
+                compile(wrapped, "<c04>", m)
         except SyntaxError as e:
-            return COMPILE_TIME[rule] in str(e)
+            # another complaint of the compiler came first (return in a class body, an unreachable case ...): the
+            # reference can neither confirm nor refute this case
+            return True if COMPILE_TIME[rule] in str(e) else None
     return False
 
 
@@ -144,7 +148,10 @@ def run_mutants(ctx, name):
     reqs, meta, dis = [], [], 0
     for c in cases:
         text, ext = realize_with_extent(c)
-        if not cpython_rejects(text, c["mode"], c["rule"]):
+        verdict = cpython_rejects(text, c["mode"], c["rule"])
+        if verdict is None:
+            ctx.extra["reference_inconclusive"] = ctx.extra.get("reference_inconclusive", 0) + 1
+        elif not verdict:
             dis += 1
             if dis <= 5:
                 ctx.note("spec_reference_disagreement[%s]: CPython accepts %r (rule %s)" % (name, text, c["rule"]))
@@ -277,6 +284,83 @@ def run_string_rules(ctx):
     ctx.extra["string_rule_cases"] = len(reqs)
 
 
+
+# ---------------------------------------------------------------------------------------------- parameter / argument lists
+ARG_RULE_KINDS = {"param.bare_star": ["Lexical.OtherError:named arguments must follow bare*"], "param.default_order": ["Lexical.DefaultArgumentError"],
+                  "param.duplicate": ["Lexical.DuplicateArgumentError"], "call.positional_after_keyword": ["Lexical.PositionalArgumentError"],
+                  "call.star_after_dstar": ["Lexical.UnpackedArgumentError"], "call.duplicate_keyword": ["Lexical.DuplicateKeywordArgumentError"]}
+PARAM_TEXT = {"a": "a", "b": "b", "a=": "a=1", "b=": "b=1", "c=": "c=1", "/": "/", "*": "*", "*v": "*v", "**w": "**w", "*a": "*a", "**a": "**a"}
+ARG_TEXT = {"x": "x", "*s": "*s", "k=": "k=1", "k2=": "k2=1", "**d": "**d"}
+PARAM_FORMS = ["def f(%s): pass\n", "async def f(%s): pass\n", "lambda %s: 0\n"]
+ARG_FORMS = ["f(%s)\n", "@f(%s)\ndef g(): pass\n", "class C(%s): pass\n"]
+
+
+def reference_accepts(text):
+    try:
+        with warnings.catch_warnings():
+            warnings.simplefilter("ignore")
+            compile(text, "<c04>", "exec")
+        return True
+    except SyntaxError:
+        return False
+
+
+def run_argrules(ctx):
+    """ArgRules.tla: every parameter list / argument list up to MaxLen with the reference's verdict"""
+    r = ctx.tlc("syntax", "ArgRules", "ArgRules_%s.cfg" % ("quick" if ctx.quick else "thorough"), coverage=False, timeout=3000)
+    from vcheck import ToolError
+    if len(r.replays) < 10000:
+        raise ToolError("vacuity: ArgRules emitted %d lists" % len(r.replays))
+    h = ctx.harness("default")
+    reqs, meta, dis = [], [], 0
+    for c in r.replays:
+        table, forms = (PARAM_TEXT, PARAM_FORMS) if c["kind"] == "params" else (ARG_TEXT, ARG_FORMS)
+        inner = ", ".join(table[it] for it in c["items"])
+        for form in forms:
+            if c["kind"] == "args" and form.startswith("class") and not c["items"]:
+                text = "class C(): pass\n"
+            else:
+                text = form % inner
+            if reference_accepts(text) != (c["verdict"] == "ok"):
+                dis += 1
+                if dis <= 5:
+                    ctx.note("spec_reference_disagreement[argrules]: %r spec=%s" % (text, c["verdict"]))
+                continue
+            reqs.append({"op": "parse", "src": text, "mode": "Module"})
+            meta.append(c)
+    ctx.extra["spec_reference_disagreements"] = ctx.extra.get("spec_reference_disagreements", 0) + dis
+    verdicts = ctx.extra.setdefault("argrule_verdicts", {})
+    for c, req, resp in zip(meta, reqs, h.run(reqs)):
+        ctx.replayed += 1
+        src = req["src"]
+        verdicts[c["verdict"]] = verdicts.get(c["verdict"], 0) + 1
+        base = {"fam": "argrules", "src": src, "verdict": c["verdict"], "broken": c["broken"], "pinned_accepts": c["pinned_accepts"]}
+        site = src.split("(")[0].split(" ")[0] if not src.startswith("lambda") else "lambda"
+        if c["verdict"] == "ok":
+            if "ok" not in resp:
+                ctx.mismatch("argrules.rejects_valid@%s" % site, {"src": src, "observed": str(resp)[:200]}, base)
+            continue
+        if "ok" in resp:
+            tag = "param.bare_star[kwargs_follow]" if c["pinned_accepts"] else "+".join(sorted(c["broken"])) or "shape"
+            ctx.mismatch("accepted:%s@argrules.%s" % (tag, site), {"src": src, "broken": c["broken"]}, base)
+            continue
+        if "err" not in resp:
+            ctx.mismatch("crash:argrules", {"src": src, "observed": str(resp)[:200]}, base)
+            continue
+        if c["verdict"] == "shape" and not c["broken"]:
+            continue                                    # a grammar error of any kind
+        kind = kindname(resp["err"]["kind"])
+        expect = [k for rule in c["broken"] for k in ARG_RULE_KINDS[rule]]
+        if c["verdict"] == "shape":
+            continue
+        if not matches(kind, expect):
+            ctx.mismatch("wrong_error:%s->%s@argrules" % ("+".join(sorted(c["broken"])), kind.split(":")[0][:50]), {"src": src, "expected": expect, "observed": resp["err"]}, base)
+        elif not (0 <= resp["err"]["offset"] <= len(src.encode("utf-8"))):
+            ctx.mismatch("offset_outside:argrules", {"src": src, "observed": resp["err"]}, base)
+    ctx.extra["argrule_lists"] = len(r.replays)
+    ctx.distinct_cases.update(q["src"] for q in reqs)
+
+
 def run(ctx):
     ctx.extra["exhaustive"] = True
     ctx.extra["rule"] = "every program PyGen.tla builds around exactly one invalid construct (three sub-languages); every predicted-error class string of Lexer.tla's alphabets; every erroneous literal of StrLit.tla"
@@ -289,6 +373,8 @@ def run(ctx):
     # every f-string error exit: the scanner mirror (FStringScan.tla) predicts the outcome of every body over its alphabet
     from checks import c07
     c07.run_scan(ctx)
+    # every short parameter list and argument list with the reference's verdict
+    run_argrules(ctx)
     need = {"bracket.mismatched", "bytes.mixed", "bytes.non_ascii", "call.duplicate_keyword", "call.positional_after_keyword", "call.star_after_dstar", "char.unstartable",
             "continuation.junk", "dstar.parenthesised", "star.parenthesised", "fstr.bad_conversion", "fstr.empty", "fstr.invalid_expression", "fstr.mismatched",
             "fstr.nested_too_deeply", "fstr.single_rbrace", "fstr.unclosed", "fstr.unmatched", "fstr.unterminated_string", "num.bad_digit", "num.double_underscore",
@@ -311,6 +397,14 @@ def replay(ctx, rec):
     if c["fam"] == "scan":
         from checks import c07
         return c07.replay_scan(ctx, c, h)
+    if c["fam"] == "argrules":
+        resp = h.run([{"op": "parse", "src": c["src"], "mode": "Module"}])[0]
+        ctx.replayed += 1
+        if (c["verdict"] == "ok") != ("ok" in resp):
+            tag = "param.bare_star[kwargs_follow]" if c["pinned_accepts"] else "+".join(sorted(c["broken"])) or "shape"
+            ctx.mismatch(("accepted:%s@argrules.replay" % tag) if "ok" in resp else "argrules.rejects_valid@replay", {"src": c["src"]}, c)
+        ctx.sample({"fam": "argrules"})
+        return
     if c["fam"] == "mut":
         resp = h.run([c["request"]])[0]
         ctx.replayed += 1
